@@ -107,14 +107,42 @@ func stringConsts(p *core.Prog, rel string) map[string]string {
 	return out
 }
 
-// concatParts flattens a string concatenation tree into its leaves.
-func concatParts(v ssa.Value) []ssa.Value {
+// concatParts flattens a string concatenation tree into its leaves, looking
+// through single-return helper functions (a subject built by a helper such as
+// eventSubject(name) is expanded with the helper's parameters bound).
+func concatParts(v ssa.Value) []ssa.Value { return concatPartsWith(v, core.NewResolver()) }
+
+func concatPartsWith(v ssa.Value, rs *core.Resolver) []ssa.Value {
+	v = rs.R(v)
 	if bo, ok := v.(*ssa.BinOp); ok && bo.Op == token.ADD {
 		if b, ok := bo.Type().Underlying().(*types.Basic); ok && b.Info()&types.IsString != 0 {
-			return append(concatParts(bo.X), concatParts(bo.Y)...)
+			return append(concatPartsWith(bo.X, rs), concatPartsWith(bo.Y, rs)...)
 		}
 	}
 	return []ssa.Value{v}
+}
+
+// mergeConstParts joins adjacent constant string leaves ("." + "change" -> ".change").
+type subjPart struct {
+	Const string
+	IsC   bool
+	V     ssa.Value
+}
+
+func subjectParts(v ssa.Value) []subjPart {
+	var out []subjPart
+	for _, pt := range concatParts(v) {
+		if s, ok := core.ConstString(pt); ok {
+			if n := len(out); n > 0 && out[n-1].IsC {
+				out[n-1].Const += s
+				continue
+			}
+			out = append(out, subjPart{Const: s, IsC: true})
+			continue
+		}
+		out = append(out, subjPart{V: pt})
+	}
+	return out
 }
 
 // analyserValidPart mirrors the documented subject-token rule: non-empty,
@@ -135,6 +163,26 @@ func analyserValidPart(s string) bool {
 // whose failing edge panics, dominating instruction at?
 func validatedBy(v ssa.Value, at ssa.Instruction, validator string) bool {
 	fn := at.Parent()
+	// the validation may have been extracted into a helper that is called with v and panics unless valid
+	for _, c := range core.Calls(fn) {
+		cal := c.Common().StaticCallee()
+		if cal == nil || len(cal.Blocks) == 0 || cal.Pkg != fn.Pkg || cal.Name() == validator || !core.Dominates(c, at) {
+			continue
+		}
+		for i, a := range c.Common().Args {
+			if a != v || i >= len(cal.Params) {
+				continue
+			}
+			// inside the helper: the validator is called on that parameter and its failure only panics
+			for _, hc := range core.Calls(cal) {
+				if hcal := hc.Common().StaticCallee(); hcal != nil && hcal.Name() == validator && len(hc.Common().Args) > 0 && hc.Common().Args[0] == ssa.Value(cal.Params[i]) {
+					if _, ok := panicsUnlessCall(cal, validator); ok {
+						return true
+					}
+				}
+			}
+		}
+	}
 	for _, c := range core.Calls(fn) {
 		cal := c.Common().StaticCallee()
 		if cal == nil || cal.Name() != validator || len(c.Common().Args) == 0 || c.Common().Args[0] != v {
@@ -257,6 +305,34 @@ func c07(r *core.Run) {
 			eventFunnels[fn] = true
 		}
 	}
+	// a function that hands its own subject parameter on to a funnel is a funnel too
+	for changed := true; changed; {
+		changed = false
+		for _, fn := range root {
+			if eventFunnels[fn] || fn.Parent() != nil {
+				continue
+			}
+			for _, c := range core.Calls(fn) {
+				cal := c.Common().StaticCallee()
+				if cal == nil || !eventFunnels[cal] || core.IsGo(c) {
+					continue
+				}
+				si := -1
+				for i, prm := range cal.Params {
+					if b, ok := prm.Type().Underlying().(*types.Basic); ok && b.Kind() == types.String {
+						si = i
+						break
+					}
+				}
+				if si >= 0 {
+					if prm, ok := c.Common().Args[si].(*ssa.Parameter); ok && prm.Parent() == fn {
+						eventFunnels[fn] = true
+						changed = true
+					}
+				}
+			}
+		}
+	}
 	r.Check(len(eventFunnels) <= 2, "P1", "package", "at-most-two-event-funnels", "-", fmt.Sprintf("%d event funnels", len(eventFunnels)), fmt.Sprintf("%d functions publish on a parameter subject", len(eventFunnels)))
 	for _, c := range invokes(root, "Conn", "PublishRequest") {
 		r.Bad("P1", core.FuncName(c.Parent()), "no-PublishRequest", p.InstrPos(c), "the service publishes a request")
@@ -283,7 +359,9 @@ func c07(r *core.Run) {
 		si := subjIdx(fn)
 		for _, c := range callsTo(root, fn) {
 			if eventFunnels[c.Parent()] {
-				continue // event -> rawEvent forwarding of its own parameter
+				if _, fw := c.Common().Args[si].(*ssa.Parameter); fw {
+					continue // funnel forwarding its own subject parameter
+				}
 			}
 			sites = append(sites, site{c, c.Common().Args[si], c.Common().Args[si+1]})
 		}
@@ -293,13 +371,13 @@ func c07(r *core.Run) {
 	eventKindOf := map[ssa.CallInstruction]string{}
 	for _, s := range sites {
 		fname := core.FuncName(s.c.Parent())
-		parts := concatParts(s.subj)
+		parts := subjectParts(s.subj)
 		var descs []string
 		for _, pt := range parts {
-			if cs, ok := core.ConstString(pt); ok {
-				descs = append(descs, "const:"+cs)
+			if pt.IsC {
+				descs = append(descs, "const:"+pt.Const)
 			} else {
-				descs = append(descs, valDesc(pt))
+				descs = append(descs, valDesc(pt.V))
 			}
 		}
 		tmpl := strings.Join(descs, "|")
@@ -534,19 +612,20 @@ func c07(r *core.Run) {
 				r.Bad("P6", core.FuncName(fn), "publishes-pre-response", p.Pos(fn.Pos()), "Timeout publishes nothing")
 				continue
 			}
-			guards := panicGuards(fn)
+			guards := guardMap(fn)
 			g, okg := guards["param:"+fn.Params[1].Name()+"<0"]
-			pay := pub.Common().Args[len(pub.Common().Args)-1]
+			rs6 := core.NewResolver()
+			pay := rs6.R(pub.Common().Args[len(pub.Common().Args)-1])
 			shape := ""
 			if cv, ok := pay.(*ssa.Convert); ok {
-				for _, pt := range concatParts(cv.X) {
+				for _, pt := range concatPartsWith(cv.X, rs6) {
 					if s, ok := core.ConstString(pt); ok {
 						shape += s
 					} else if c, ok := pt.(*ssa.Call); ok && c.Common().StaticCallee() != nil && c.Common().StaticCallee().String() == "strconv.FormatInt" {
 						base, _ := core.ConstInt(c.Common().Args[1])
 						shape += fmt.Sprintf("<int base %d>", base)
 						// the integer is d / time.Millisecond
-						if bo, ok := core.Strip(c.Common().Args[0]).(*ssa.BinOp); ok && bo.Op == token.QUO {
+						if bo, ok := core.Strip(rs6.R(core.Strip(c.Common().Args[0]))).(*ssa.BinOp); ok && bo.Op == token.QUO {
 							if k, ok := core.ConstInt(bo.Y); ok && k == 1000000 {
 								shape += "ms"
 							}
@@ -611,70 +690,71 @@ func c07(r *core.Run) {
 	}
 }
 
-// matchSubjectTemplate classifies a flattened subject. Returns (ok, kind, why).
-func matchSubjectTemplate(parts []ssa.Value, at ssa.CallInstruction) (bool, string, string) {
-	cs := func(i int) (string, bool) {
-		if i >= len(parts) {
-			return "", false
-		}
-		return core.ConstString(parts[i])
-	}
+// matchSubjectTemplate classifies a flattened subject (adjacent constants
+// merged). Returns (ok, kind, why).
+func matchSubjectTemplate(parts []subjPart, at ssa.CallInstruction) (bool, string, string) {
 	if len(parts) == 1 {
-		if s, ok := cs(0); ok {
+		if parts[0].IsC {
+			s := parts[0].Const
 			if s == "system.reset" || s == "system.tokenReset" {
 				return true, s, ""
 			}
 			return false, "", "constant subject " + s
 		}
-		if f, ok := core.LoadedField(parts[0]); ok && f.Name == "Reply" && strings.HasSuffix(f.Struct, "nats.go.Msg") {
+		if f, ok := core.LoadedField(parts[0].V); ok && f.Name == "Reply" && strings.HasSuffix(f.Struct, "nats.go.Msg") {
 			return true, "reply-subject", ""
 		}
-		return false, "", "single non-constant subject " + valDesc(parts[0])
+		return false, "", "single non-constant subject " + valDesc(parts[0].V)
 	}
-	p0, _ := cs(0)
-	switch p0 {
+	if !parts[0].IsC {
+		return false, "", "subject does not start with a constant prefix"
+	}
+	isValidated := func(v ssa.Value) bool {
+		_, isParam := v.(*ssa.Parameter)
+		return isParam && validatedBy(v, at, "isValidPart")
+	}
+	switch parts[0].Const {
 	case "conn.":
-		if len(parts) != 3 {
-			return false, "", "conn. subject with wrong arity"
+		if len(parts) != 3 || !parts[2].IsC || parts[2].Const != ".token" || parts[1].IsC {
+			return false, "", "conn. subject is not conn.<cid>.token"
 		}
-		if s, ok := cs(2); !ok || s != ".token" {
-			return false, "", "conn. subject does not end in .token"
-		}
-		v := parts[1]
-		if f, ok := core.LoadedField(v); ok && f.Struct == "Request" && f.Name == "cid" {
+		v := parts[1].V
+		if f, ok := core.LoadedField(v); ok && f.Struct == "Request" {
+			// the request's own connection id: the field the CID() accessor returns
 			return true, "token", "exempt-cid"
 		}
-		if _, isParam := v.(*ssa.Parameter); isParam && validatedBy(v, at, "isValidPart") {
+		if isValidated(v) {
 			return true, "token", ""
 		}
 		return false, "", "connection id " + valDesc(v) + " is not validated by isValidPart"
 	case "event.":
-		if len(parts) < 3 {
+		if len(parts) < 3 || parts[1].IsC {
 			return false, "", "event. subject with wrong arity"
 		}
-		if f, ok := core.LoadedField(parts[1]); !ok || f.Struct != "resource" || f.Name != "rname" {
-			return false, "", "resource part is " + valDesc(parts[1]) + ", not the routed resource name"
+		if f, ok := core.LoadedField(parts[1].V); !ok || f.Struct != "resource" || !isStringField(parts[1].V) {
+			return false, "", "resource part is " + valDesc(parts[1].V) + ", not the routed resource name"
 		}
-		if len(parts) == 3 {
-			s, ok := cs(2)
-			if !ok || !strings.HasPrefix(s, ".") || !analyserValidPart(s[1:]) {
+		if len(parts) == 3 && parts[2].IsC {
+			s := parts[2].Const
+			if !strings.HasPrefix(s, ".") || !analyserValidPart(s[1:]) {
 				return false, "", "event name constant " + s + " is not '.'+valid token"
 			}
 			return true, s[1:], ""
 		}
-		if len(parts) == 4 {
-			if s, ok := cs(2); !ok || s != "." {
-				return false, "", "event name not separated by a single dot"
-			}
-			v := parts[3]
-			if _, isParam := v.(*ssa.Parameter); isParam && validatedBy(v, at, "isValidPart") {
+		if len(parts) == 4 && parts[2].IsC && parts[2].Const == "." && !parts[3].IsC {
+			if isValidated(parts[3].V) {
 				return true, "custom", ""
 			}
-			return false, "", "event name " + valDesc(v) + " is not validated by isValidPart"
+			return false, "", "event name " + valDesc(parts[3].V) + " is not validated by isValidPart"
 		}
-		return false, "", "event. subject with too many parts"
+		return false, "", "event. subject with an unexpected shape"
 	}
-	return false, "", "unknown subject prefix"
+	return false, "", "unknown subject prefix " + parts[0].Const
+}
+
+func isStringField(v ssa.Value) bool {
+	b, ok := v.Type().Underlying().(*types.Basic)
+	return ok && b.Kind() == types.String
 }
 
 // c07Validator checks the rune-class facts of a token validator: it rejects
@@ -806,8 +886,39 @@ func panicOrFalseGuards(fn *ssa.Function) map[string]bool {
 
 func c07Meta(r *core.Run, root []*ssa.Function) {
 	p := r.P
-	status := core.Field{Struct: "Request", Name: "status"}
-	rheader := core.Field{Struct: "Request", Name: "rheader"}
+	// role resolution: the status field is the int field of Request stored by SetResponseStatus, the
+	// header field the http.Header field touched by ResponseHeader; isHTTP is what IsHTTP() returns;
+	// replied is the reply flag.
+	var status, rheader, isHTTP core.Field
+	replied, _, _ := flagOf(p, "", "Request")
+	for _, m := range methodsOf(p, "", "Request") {
+		switch m.Name() {
+		case "SetResponseStatus", "ResponseHeader":
+			for _, b := range m.Blocks {
+				for _, in := range b.Instrs {
+					if st, ok := in.(*ssa.Store); ok {
+						if f, ok := core.FieldOf(st.Addr); ok && f.Struct == "Request" {
+							if m.Name() == "SetResponseStatus" {
+								status = f
+							} else {
+								rheader = f
+							}
+						}
+					}
+				}
+			}
+		case "IsHTTP":
+			for _, ret := range core.Returns(m) {
+				if f, ok := core.LoadedField(ret.Results[0]); ok {
+					isHTTP = f
+				}
+			}
+		}
+	}
+	if status.Name == "" || rheader.Name == "" || isHTTP.Name == "" {
+		r.Unres("P4", "meta-fields", "cannot resolve status/header/isHTTP fields of Request from SetResponseStatus/ResponseHeader/IsHTTP")
+		return
+	}
 	for _, ac := range core.FieldAccesses(root, func(f core.Field) bool { return f == status || f == rheader }) {
 		if !ac.Write {
 			continue
@@ -816,16 +927,27 @@ func c07Meta(r *core.Run, root []*ssa.Function) {
 		httpG, repG := false, false
 		for _, ed := range dominatingEdges(ac.Instr) {
 			switch describeCond(ed) {
-			case "Request.isHTTP":
+			case isHTTP.String():
 				httpG = true
-			case "!Request.replied":
+			case "!" + replied.String():
 				repG = true
 			}
 		}
-		guards := panicGuards(fn)
-		_, g1 := guards["!Request.isHTTP"]
-		_, g2 := guards["Request.replied"]
-		r.Check(httpG && repG && g1 && g2 && fn.Object() != nil && fn.Object().Exported(), "P4", core.FuncName(fn), "write("+ac.F.String()+")-behind-isHTTP-and-!replied", p.InstrPos(ac.Instr),
+		guards := guardMap(fn)
+		_, g1 := guards["!"+isHTTP.String()]
+		_, g2 := guards[replied.String()]
+		// the guards may have been extracted into a helper called first
+		if !(httpG && repG) {
+			for _, g := range panicGuardsIn(fn) {
+				if g.Desc == "!"+isHTTP.String() && core.Dominates(g.At, ac.Instr) {
+					httpG = true
+				}
+				if g.Desc == replied.String() && core.Dominates(g.At, ac.Instr) {
+					repG = true
+				}
+			}
+		}
+		r.Check(httpG && repG && g1 && g2 && fn.Object() != nil && fn.Object().Exported(), "P4", core.FuncName(fn), "write(meta:"+map[bool]string{true: "status", false: "header"}[ac.F == status]+")-behind-isHTTP-and-!replied", p.InstrPos(ac.Instr),
 			"meta can only be set on an HTTP-flagged request that has not been answered; both failing edges panic", fmt.Sprintf("meta field written without both guards (isHTTP-edge=%v, !replied-edge=%v, panics=%v/%v)", httpG, repG, g1, g2))
 	}
 	// metaObject construction sites
@@ -834,7 +956,7 @@ func c07Meta(r *core.Run, root []*ssa.Function) {
 		for _, b := range fn.Blocks {
 			for _, in := range b.Instrs {
 				if al, ok := in.(*ssa.Alloc); ok && core.TypeName(al.Type()) == "metaObject" {
-					ok2 := fn.Name() == "meta" && fn.Signature.Recv() != nil
+					ok2 := fn.Signature.Recv() != nil && core.TypeName(fn.Signature.Recv().Type()) == "Request" && fn.Parent() == nil && fn.Signature.Params().Len() == 0
 					r.Check(ok2, "P4", core.FuncName(fn), "constructs-metaObject", p.InstrPos(al), "metaObject is only built by (*Request).meta", "metaObject constructed outside meta(): meta could appear on a non-HTTP response")
 					if ok2 {
 						metaFn = fn
@@ -854,7 +976,7 @@ func c07Meta(r *core.Run, root []*ssa.Function) {
 			n := 0
 			for _, ed := range dominatingEdges(ret) {
 				d := describeCond(ed)
-				if d == "len Request.rheader==0" || d == "Request.status==0" {
+				if d == "len "+rheader.String()+"==0" || d == status.String()+"==0" {
 					n++
 				}
 			}
